@@ -422,6 +422,12 @@ def pNc : P String := do
   out := out ++ " meta"
   for ti in [0:nres] do
     out := out ++ s!" {showOpt (ds.towerLat ti)},{showOpt (ds.towerLon ti)},{showOpt (ds.towerZ ti)}"
+  -- `ds.sel(tower=label)` / `ds.sel(time=label)`: index the label selects, for every label and for one that is absent
+  let showIdx : Option Nat → String := fun o => match o with | some k => toString k | none => "N"
+  out := out ++ " seltower"
+  for l in ds.towerLabels ++ [99999] do out := out ++ s!" {showIdx (ds.selTower l)}"
+  out := out ++ " seltime"
+  for l in ds.timeLabels ++ [99999] do out := out ++ s!" {showIdx (ds.selTime l)}"
   pure out
 
 def pInt : P Int := do
